@@ -4,6 +4,7 @@ use kvc::util::Opts;
 mod c27;
 mod c28;
 mod c29;
+mod c31;
 mod c35;
 mod c37;
 mod ca_data;
@@ -20,6 +21,7 @@ fn main() {
         "c27" => c27::run(&opts),
         "c28" => c28::run(&opts),
         "c29" => c29::run(&opts),
+        "c31" => c31::run(&opts),
         "c35" => c35::run(&opts),
         "c37" => c37::run(&opts),
         other => {
